@@ -29,6 +29,7 @@ From Coq Require Import List ZArith Bool.
 From AV Require Import Byods.TrRelModel.
 From AV Require Import Byods.TrRelProofs.
 From AV Require Import Byods.TrRelTernary.
+From AV Require Import Byods.TrRelIsEmpty.
 From AV Require Byods.Closure.
 From AV Require Import Engine.Core Engine.Sem Engine.Validate Engine.Naive Engine.Interface.
 From AV Require Import Byods.Provider Engine.EvalProv Engine.InterfaceProv Engine.ProvLaws.
@@ -187,6 +188,42 @@ Proof.
   intros v. split; [exact (tv_i1_get1_spec v) | split; [exact (tv_i2_get1_spec v) | split; [exact (tv_i12_get1_spec v) | exact (tv_i1_get1_panics v)]]].
 Qed.
 
+(* ================= is_empty of the views (the empty-relation shortcut of generated code) ================= *)
+
+(* Generated code skips a rule with > 1 body clauses (other than a plain two-clause simple join) when any body relation
+   answers is_empty() = true.  The answers of the trrel views are slots of the model's observations
+   (TrRelIsEmpty.observe_*_flags), tied to the provider on every history of the check.  Along every protocol history,
+   for both versions of the ternary form: whichever view answers true, the version holds no tuple — the skipped rule
+   had nothing to derive from it.  The [1,2] view (whose len_estimate is a rounded heuristic) and the `none` views
+   answer false always. *)
+Theorem c11_is_empty_definite : forall b ops st ins,
+  trun b true tempty [] ops = Some (st, ins) ->
+  forall v, v = t_total st \/ v = t_delta st ->
+  t_is_empty_fwd v = true \/ t_is_empty_none v = true \/ t_is_empty_i1 v = true \/ t_is_empty_i2 v = true \/ t_is_empty_i12 v = true ->
+  forall t, ~ has v t.
+Proof. exact t_is_empty_definite. Qed.
+
+(* view by view, for ANY version value: a true answer forces every reading of that view (index_get over every key of
+   the domain, iter_all, contains_key) to be empty *)
+Theorem c11_is_empty_views_ternary : forall keys n v,
+  (t_is_empty_fwd v = true ->
+     tall v = [] /\ tv_full_contains keys n v = [] /\ tv_i0_get keys v = [] /\
+     tv_i01_get keys n v = [] /\ tv_i01_iter v = [] /\ tv_i02_get keys n v = [] /\ tv_i02_iter v = []) /\
+  (t_is_empty_i1 v = true -> tv_i1_get n v = Some [] /\ tv_i1_iter v = Some []) /\
+  (t_is_empty_i2 v = true -> tv_i2_get n v = Some [] /\ tv_i2_iter v = Some []) /\
+  (t_is_empty_none v = true -> tall v = []) /\
+  (t_is_empty_i12 v = true -> tv_i12_get n v = Some [] /\ tv_i12_iter v = Some []).
+Proof.
+  intros keys n v. split; [exact (t_is_empty_fwd_sound keys n v) | split; [exact (t_is_empty_i1_sound n v) | split; [exact (t_is_empty_i2_sound n v) | exact (t_is_empty_none_i12_sound n v)]]].
+Qed.
+
+Theorem c11_is_empty_views_binary : forall n r,
+  (b_is_empty_keyed r = true ->
+     v_full_contains n r = [] /\ v_full_get n r = [] /\ v_full_iter r = [] /\
+     v_i0_get n r = [] /\ v_i0_iter r = [] /\ v_i1_get n r = [] /\ v_i1_iter r = []) /\
+  (b_is_empty_none r = true -> v_none r = []).
+Proof. intros n r. split; [exact (b_is_empty_keyed_sound n r) | exact (b_is_empty_none_sound r)]. Qed.
+
 (* ================= the behaviour before the repairs (model with the old parameter values) ================= *)
 
 (* before commit 2cd049f the flag was created `true`: edges (1,2), (2,1) imply (1,1), which was not produced ... *)
@@ -238,6 +275,18 @@ Example c11_example_ternary :
   end = ([(0, 2, 3); (0, 1, 3)], Some [(0, 1, 3); (0, 2, 3)], Some [(0, 2, 3); (0, 1, 3)]).
 Proof. vm_compute. reflexivity. Qed.
 
+(* many keys sharing one edge (the regime where the rounded len_estimate of the [1,2] view is 0): after the merge the
+   [1,2] view of delta serves all four tuples and no view of delta answers is_empty; every keyed view of the still empty
+   total does *)
+Example c11_example_key_heavy :
+  match trun shipped_arefl true tempty [] [TIns 0 1 0; TIns 1 1 0; TIns 2 1 0; TIns 3 1 0; TMerge] with
+  | Some (st, _) => (option_map (@length _) (tv_i12_iter (t_delta st)),
+                     [t_is_empty_fwd (t_delta st); t_is_empty_i1 (t_delta st); t_is_empty_i2 (t_delta st); t_is_empty_i12 (t_delta st)],
+                     [t_is_empty_fwd (t_total st); t_is_empty_i1 (t_total st); t_is_empty_i2 (t_total st); t_is_empty_i12 (t_total st)])
+  | None => (None, [], [])
+  end = (Some 4%nat, [false; false; false; false], [true; true; true; false]).
+Proof. vm_compute. reflexivity. Qed.
+
 Print Assumptions c11_closure. Print Assumptions c11_closure_shared. Print Assumptions c11_ternary_closure. Print Assumptions c11_ternary_rev_views_exact.
 Print Assumptions c11_engine_laws_binary. Print Assumptions c11_engine_laws_ternary. Print Assumptions c11_program_binary.
 Print Assumptions c11_program_ternary. Print Assumptions c11_closure_operator_is_the_rule. Print Assumptions c11_protocol_histories_are_guarded.
@@ -248,3 +297,5 @@ Print Assumptions c11_ternary_merge_per_key. Print Assumptions c11_ternary_per_k
 Print Assumptions c11_refuted_cycle_before_fix. Print Assumptions c11_lost_exactly_known_before_fix.
 Print Assumptions c11_ternary_rev_refuted_before_fix. Print Assumptions c11_ternary_rev2_refuted_before_fix.
 Print Assumptions c11_example_cycle. Print Assumptions c11_example_chain. Print Assumptions c11_example_ternary.
+Print Assumptions c11_is_empty_definite. Print Assumptions c11_is_empty_views_ternary. Print Assumptions c11_is_empty_views_binary.
+Print Assumptions c11_example_key_heavy.
